@@ -268,6 +268,13 @@ fn shrink_doc(c: &Case, class: &str) -> Case {
             break;
         }
     }
+    // a plainer stub that still shows it
+    if cur.fat || cur.shared {
+        let cand = Case { personality: cur.personality, doc: cur.doc.clone(), query: cur.query.clone(), fat: false, shared: false };
+        if check_case(&cand).map(|x| x.class == class).unwrap_or(false) {
+            cur = cand;
+        }
+    }
     // a simpler personality that still shows it
     for bit in [4u8, 2, 1] {
         if cur.personality & bit != 0 {
